@@ -609,10 +609,18 @@ fn shake_0(expression: Expression) -> Expression {
                 }
             }
         }
-        Expression::Match(m, expression) => {
-            let expression = shake_0(*expression);
-            Expression::Match(m, Box::new(expression))
-        }
+        Expression::Match(m, expression) => match *expression {
+            // NOTE: The members of the group under all()/of() are what gets counted, so the group
+            // itself is kept (as shake_1 and matrix do) and only its members are shaken
+            Expression::BooleanGroup(symbol, expressions) => {
+                let mut scratch = vec![];
+                for expression in expressions {
+                    scratch.push(shake_0(expression));
+                }
+                Expression::Match(m, Box::new(Expression::BooleanGroup(symbol, scratch)))
+            }
+            expression => Expression::Match(m, Box::new(shake_0(expression))),
+        },
         Expression::Negate(expression) => {
             let expression = shake_0(*expression);
             match expression {
